@@ -17,7 +17,8 @@ CONSTANTS Cls, MsgKinds, Outs, DelayCls, Vals, Depth, Variant, MaxObjs
 \* Cls subset of {"P","C","N","T"}: P = instructor subclass of Feedback, C = subclass of P, T = a tool feedback
 Attrs == {"template", "title"}
 \* N = another subclass of P whose own class body sets title = None, masking P's title
-Parent(c) == IF c \in {"C", "N"} THEN "P" ELSE "none"
+\* I = a subclass of P with an EMPTY class body: it defines nothing itself, every attribute is inherited ("inherit")
+Parent(c) == IF c \in {"C", "N", "I"} THEN "P" ELSE "none"
 
 VARIABLES objs,      \* sequence of feedback objects [cls, mk, out, status, truth, list, msg]
           active, ignored,   \* report.feedback / report.ignored_feedback as sequences of object ids
@@ -30,12 +31,14 @@ VARIABLES objs,      \* sequence of feedback objects [cls, mk, out, status, trut
           hist
 vars == <<objs, active, ignored, attr, table, backup, overridden, fmt, raised, hist>>
 
-Pristine == [c \in Cls |-> [a \in Attrs |-> "orig:" \o c]]   \* every class has its own originals
+Pristine == [c \in Cls |-> [a \in Attrs |-> IF c = "I" THEN "inherit" ELSE "orig:" \o c]]   \* own originals (I: none)
+\* getattr(cls, attribute): the class' own value, else its parent's
+Eff(at, c, a) == IF at[c][a] = "inherit" THEN at[Parent(c)][a] ELSE at[c][a]
 NoBackup == [c \in Cls |-> [a \in Attrs |-> "none"]]
 
 Proj == [active |-> active, ignored |-> ignored,
          objs |-> [i \in 1..Len(objs) |-> [status |-> objs[i].status, truth |-> objs[i].truth, msg |-> objs[i].msg]],
-         attr |-> attr, raised |-> raised, fmt |-> fmt]
+         attr |-> [c \in Cls |-> [a \in Attrs |-> Eff(attr, c, a)]], raised |-> raised, fmt |-> fmt]
 
 Init == /\ objs = <<>> /\ active = <<>> /\ ignored = <<>> /\ attr = Pristine
         /\ table = [c \in Cls |-> "none"] /\ backup = NoBackup /\ overridden = {}
@@ -49,7 +52,7 @@ DeriveMsg(cls, mk) ==
     ELSE IF mk = "kwtemplate" THEN [k |-> "template", t |-> "kw", f |-> fmt]
     \* a keyword template whose format spec itself contains a replacement field: '{x:>{w}}'
     ELSE IF mk = "kwnested" THEN [k |-> "template", t |-> "kwn", f |-> fmt]
-    ELSE [k |-> "template", t |-> attr[cls]["template"], f |-> fmt]
+    ELSE [k |-> "template", t |-> Eff(attr, cls, "template"), f |-> fmt]
 NoMsg == [k |-> "none", t |-> "-", f |-> "-"]
 
 (* ---------- _handle_condition, written like the code ---------- *)
@@ -107,12 +110,16 @@ HandleDelayed(i) ==
 TableOf(c) == IF table[c] # "none" THEN table[c]
               ELSE IF Parent(c) \in Cls /\ table[Parent(c)] # "none" THEN table[Parent(c)] ELSE c
 Override(c, a, v) ==
-    /\ CanAct /\ v # attr[c][a]
+    /\ CanAct /\ v # Eff(attr, c, a) /\ v # "inherit"
     /\ LET t == IF Variant = "shared_table" THEN TableOf(c) ELSE c   \* "shared_table" = code before the fix
            firstTime == backup[t][a] = "none"
        IN /\ table' = [table EXCEPT ![c] = t]
           /\ backup' = IF firstTime \/ Variant = "backup_always"
-                       THEN [backup EXCEPT ![t][a] = attr[c][a]] ELSE backup
+                       \* what is saved: the class' OWN state (possibly "the class does not define it"); Variant
+                       \* pin_inherited saved getattr(cls, field), i.e. whatever the parent held at that moment, and
+                       \* restoring that pinned a copy of it onto the subclass
+                       THEN [backup EXCEPT ![t][a] = IF Variant = "pin_inherited" THEN Eff(attr, c, a) ELSE attr[c][a]]
+                       ELSE backup
           /\ attr' = [attr EXCEPT ![c][a] = v]
     /\ overridden' = overridden \cup {c} /\ raised' = FALSE
     /\ UNCHANGED <<objs, active, ignored, fmt>>
@@ -133,8 +140,8 @@ Restore(at, bk, cs) ==
                              THEN at[Parent(c)][a] ELSE bk[t][a]]]
              bk1 == [bk EXCEPT ![t] = [a \in Attrs |-> "none"]]
          IN Restore(at1, bk1, Tail(cs))
-OrderP == LET s == <<"P", "C", "N", "T">> IN SelectSeq(s, LAMBDA c : c \in overridden)
-OrderC == LET s == <<"C", "N", "P", "T">> IN SelectSeq(s, LAMBDA c : c \in overridden)
+OrderP == LET s == <<"P", "C", "N", "I", "T">> IN SelectSeq(s, LAMBDA c : c \in overridden)
+OrderC == LET s == <<"C", "N", "I", "P", "T">> IN SelectSeq(s, LAMBDA c : c \in overridden)
 
 ClearEffects(order) ==
     LET r == Restore(attr, backup, order) IN
